@@ -26,7 +26,7 @@ ASSUMPTIONS = [
     "auto-generated ids are canonicalised by creation order",
 ]
 
-FIELDS = ("alive", "orphans", "kids", "sys", "rec", "pend")
+FIELDS = ("alive", "fin", "orphans", "kids", "sys", "rec", "pend")
 
 
 def replay_chunk(args):
@@ -77,8 +77,8 @@ def run(prop: str, tier: str, seed: int) -> int:
             errors.append(f"TLC rc={rc} " + "; ".join(errs[:3]))
         # second, deeper exploration restricted to the operations that own hidden engine state (delayed sends that
         # supersede each other, cancel, stopping the target) - histories the full table only reaches at greater depth
-        focus = [o for o in actors.OPS if o["name"] in ("SP_w_a1", "SP_w_a2_s1", "CAN_i1", "SC_a1", "ST_a1_X") or o["name"].startswith("STD_")]
-        edges2, stats2, errs2, rc2, _w2 = actors.model_check(os.path.join(wd, "mc2"), focus, 6 if q else 7, 5, workers=8)
+        focus = [o for o in actors.OPS if o["name"] in ("SP_w_a1", "SP_w_a2_s1", "CAN_i1", "SC_a1", "ST_a1_X", "ST_a1_FIN", "ST_a1_GSP") or o["name"].startswith("STD_")]
+        edges2, stats2, errs2, rc2, _w2 = actors.model_check(os.path.join(wd, "mc2"), focus, 5 if q else 6, 5, workers=8)
         if rc2 != 0 or errs2:
             errors.append(f"TLC (focus) rc={rc2} " + "; ".join(errs2[:3]))
         have = {json.dumps([e["from"], e["step"], e["to"]], sort_keys=True) for e in edges}
